@@ -314,7 +314,7 @@ def run(ctx):
     ctx.log("MC ok: %d distinct / %d generated states" % (r["distinct"], r["generated"]))
     live = LIVENESS.get(prop)
     if live:
-        lcfg = mc_cfg(ctx, d, "LIVE_%s.cfg" % prop, "ConfigsLive", [], live, spec="MCFairSpec")
+        lcfg = mc_cfg(ctx, d, "LIVE_%s.cfg" % prop, "ConfigsLiveQuick" if tier == "quick" else "ConfigsLiveFull", [], live, spec="MCFairSpec")
         r2 = ctx.tlc(ENGINE, "MCWriter", lcfg, workers=16, timeout=900 if tier == "quick" else 3000)
         if r2["violated"] or r2["error"] or r2["timeout"]:
             raise Inconclusive("liveness checking of Writer.tla did not pass: " + r2["out"][-2500:])
